@@ -701,6 +701,14 @@ def hStCase (args : List String) (real : Option String) : Option Out := do
                             loadErr := assigned.any loadErr.contains, flogErr, openErr, ended, reopenErr }
   -- config.GetFileMetadata: type "file" without a file name panics in NewFSMetadata (dcp.go Start, first switch)
   let exit := if metaT == "file" && file != "set" then Startup.Exit.fail "file-name-missing" else Startup.startAny c
+  -- case names `nosnap<K>x<VB>`: the stored document of VB has NO snapshot section (`doc.Checkpoint.Snapshot == nil`): checkpoint.Load
+  -- l.187 dereferences it inside the map's Range goroutine - a fail-stop (class `nil-deref`) for every start-up that gets as far as
+  -- building the offsets; nothing is delivered
+  let noSnapVb : Option Vb := if _name.startsWith "nosnap" then ((_name.splitOn "x").getLast?.bind String.toNat?) else none
+  let exit := match noSnapVb, exit with
+    | some v, .running _ => if assigned.contains v && AMap.has docs v then Startup.Exit.fail "nil-deref" else exit
+    | some v, .fail "open-error" => if assigned.contains v && AMap.has docs v then Startup.Exit.fail "nil-deref" else exit
+    | _, _ => exit
   -- the file back end found its file: `Load` hands back the file's map, not one document per assigned vBucket
   let fileEx := file == "set" && Startup.fileExists c
   let fileMissing := if fileEx then Startup.fileMissing st else []
